@@ -311,6 +311,19 @@ func (g *c03Gen) singles(thorough bool) {
 				as3 := append(append([]c03Assign{}, as...), c03Assign{Field: f.path, Text: v.texts[len(v.texts)-1], Value: v.name, Channel: "queryjson"})
 				as3[0].Channel, as3[1].Channel = "queryjson", "queryjson"
 				g.cases = append(g.cases, c03Case{Assigns: as3, Rule: "q"})
+				// and 40 elements, cycling through the values (once per field)
+				// (one spelling of the name per request: the order between two different keys of a
+				// query string is not defined)
+				if indexOf(vals, v) == 0 {
+					for _, ch := range []string{"query", "queryjson"} {
+						var many []c03Assign
+						for k := 0; k < 40; k++ {
+							e := vals[k%len(vals)]
+							many = append(many, c03Assign{Field: f.path, Text: e.texts[k%len(e.texts)], Value: e.name, Channel: ch})
+						}
+						g.cases = append(g.cases, c03Case{Assigns: many, Rule: "q"})
+					}
+				}
 			}
 		}
 	}
@@ -485,7 +498,7 @@ func c03Class(tc *c03Case) string {
 
 func runC03(c *Ctx) {
 	r := c.Run
-	r.Rule("ComplexRequest (15 scalar kinds, enum, bytes, repeated scalars, nested message, oneof members, wrappers, Timestamp/Duration/FieldMask) × rules {no body, body '*', body 'nested', path variable on every bindable field ± body} × every field × every boundary value × every spelling × every channel (path, query by proto name, query by JSON name, body JSON/protobuf/octet-stream/a custom codec registered with CodecOption ± gzip or a custom compressor registered with CompressorOption, with known and with unknown Content-Length, without and with an Accept header naming another codec); pairs of fields in different channels (quick: all ordered pairs, 2 × 1 values; thorough: all ordered pairs × every value of both fields, plus every ordered triple path+query+nested-body); negative: texts invalid under every reading, in query and path; distinct = (rule, codec, channels, field) classes")
+	r.Rule("ComplexRequest (15 scalar kinds, enum, bytes, repeated scalars (1-3 and 40 elements), strings of 300 / 5600 / 6000 bytes, nested message, oneof members, wrappers, Timestamp/Duration/FieldMask) × rules {no body, body '*', body 'nested', path variable on every bindable field ± body} × every field × every boundary value × every spelling × every channel (path, query by proto name, query by JSON name, body JSON/protobuf/octet-stream/a custom codec registered with CodecOption ± gzip or a custom compressor registered with CompressorOption, with known and with unknown Content-Length, without and with an Accept header naming another codec); pairs of fields in different channels (quick: all ordered pairs, 2 × 1 values; thorough: all ordered pairs × every value of both fields, plus every ordered triple path+query+nested-body); negative: texts invalid under every reading, in query and path; distinct = (rule, codec, channels, field) classes")
 	r.Assume("not demanded: NaN/Infinity, 'True'/'1' for bool, leading '+'/zeros, exponent or '.0' forms for integers, mixed base64 alphabets, empty or quoted wrapper text, Content-Type with parameters, JSON null, empty sub-message as protobuf body")
 	env0, err := newC03Env()
 	if err != nil {
